@@ -149,8 +149,23 @@ fn dealloc_step<const N: usize>(slot_size: u32) {
 
 fn new_smoke<const N: usize>(slot_size: u32) {
     let arena = Arena::new(1).unwrap();
+    let off0 = arena.offset();
+    // (the base is recovered through a zero-size allocation; in the debug profile that allocation
+    // poisons another 128 bytes, which made the instance run out of memory, so the layout clauses
+    // are decided in the R-profile instance only)
+    let abase = if cfg!(debug_assertions) { 0 } else { arena_base(&arena) };
     let pool = Pool::new(&arena, slot_size, N as u32);
     assert!(inv_holds::<N>(&pool), "invariant: I12 holds initially");
+    if !cfg!(debug_assertions) {
+        // layout: the slot block and the free list are two disjoint regions of the arena, each large
+        // enough for N slots resp. N indices, both inside what the arena handed out for this pool
+        let (b, f) = (pool.block.base.as_ptr() as usize, pool.free.indices.as_ptr() as usize);
+        let (bl, fl) = (N * slot_size as usize, N * std::mem::size_of::<u32>());
+        assert!(b + bl <= f || f + fl <= b, "layout: slot block and free list do not overlap");
+        assert!(b >= abase + off0 && b + bl <= abase + arena.offset(), "layout: slot block inside the pool's own arena allocation");
+        assert!(f >= abase + off0 && f + fl <= abase + arena.offset(), "layout: free list (capacity x 4 bytes) inside the pool's own arena allocation");
+        assert!(b % 8 == 0 && f % 4 == 0, "layout: regions aligned");
+    }
     let a = pool.alloc().unwrap();
     let b = pool.alloc().unwrap();
     let (a, b) = (a.cast::<u8>().as_ptr() as usize, b.cast::<u8>().as_ptr() as usize);
